@@ -32,8 +32,8 @@ TOLERANCES = {
 }
 ASSUMPTIONS = ["axis orientation table of vf/oracles/coords.py (pinned by the baseline tests)"]
 FLOORS = {
-    "quick": {"contract:coordinate": 5000, "contract:voxel": 5000, "inverse_exact": 100000, "typed_roundtrip": 2000},
-    "thorough": {"contract:coordinate": 50000, "contract:voxel": 50000, "inverse_exact": 1000000, "typed_roundtrip": 20000},
+    "quick": {"contract:coordinate": 5000, "contract:voxel": 5000, "inverse_exact": 100000, "typed_roundtrip": 2000, "voxel0_is_origin_after_origin_change": 100},
+    "thorough": {"contract:coordinate": 50000, "contract:voxel": 50000, "inverse_exact": 1000000, "typed_roundtrip": 20000, "voxel0_is_origin_after_origin_change": 1000},
 }
 OFFSETS = [1e-6, 0.25, 0.5, 1 - 1e-6]
 
@@ -198,6 +198,40 @@ def run_shard(spec, R):
                 elif c1[c] != c0[c]:
                     good = False
         R.check(good, "unit_step_moves_one_voxel_size_on_right_axis", lambda: {**case, "base": base.tolist()})
+
+        # ---- history on one image object: the coordinate system was used above; now the origin (and then the
+        # dimensions) are changed in place through the public setters and the conversions must follow
+        if n % 4 == 0:
+            hist = img.copy()
+            _ = hist.coordinatesystem.coordinate([0] * dim)
+            new_origin = [float(x) for x in (np.asarray(origin) + rng.uniform(-3, 3, size=dim) * np.array(dims[::-1] if dim > 1 else dims))]
+            how = ["update_metadata", "assign", "reset_origin"][(n // 4) % 3]
+            if how == "update_metadata":
+                hist.update_metadata(origin=darsia.Coordinate(np.array(new_origin)))
+            elif how == "assign":
+                hist.origin = darsia.Coordinate(np.array(new_origin))
+            else:
+                hist.update_metadata(origin=darsia.Coordinate(np.array(new_origin)))
+                _ = hist.coordinatesystem
+                hist.reset_origin()
+                new_origin = CO.default_origin(dim, dims)
+            hmeta = (dim, shape, dims, [float(x) for x in new_origin])
+            hcase = {**case, "history": f"use coordinatesystem, then {how}", "new_origin": new_origin}
+            z2 = hist.coordinatesystem.coordinate([0] * dim)
+            R.check(np.array_equal(np.asarray(z2, float), np.asarray(hist.origin, float)) and np.allclose(np.asarray(hist.origin, float), new_origin, rtol=0, atol=0),
+                    "voxel0_is_origin_after_origin_change", hcase)
+            hv = np.array(list(itertools.product(*[range(-1, s + 1) for s in shape])), dtype=int)
+            judge_forward(R, hmeta, hv, hist.coordinatesystem.coordinate(hv), "forward_after_origin_change")
+            hp = CO.coordinate(dim, shape, dims, new_origin, hv + 0.5)
+            judge_inverse(R, hmeta, hp, hist.coordinatesystem.voxel(hp), "inverse_after_origin_change")
+            opp2 = np.asarray(hist.opposite_corner, float)
+            R.check(bool(np.all(np.abs((opp2 - np.asarray(new_origin)) - expd) <= 8 * eps * (np.abs(new_origin) + np.abs(expd)))), "opposite_corner_after_origin_change", hcase)
+            # ... and new physical dimensions through update_metadata
+            dims2 = [float(d * rng.uniform(0.5, 2.0)) for d in dims]
+            hist.update_metadata(dimensions=list(dims2))
+            hmeta2 = (dim, shape, dims2, [float(x) for x in np.asarray(hist.origin)])
+            judge_forward(R, hmeta2, hv, hist.coordinatesystem.coordinate(hv), "forward_after_dimension_change")
+            R.check(np.allclose(np.asarray(hist.voxel_size, float), CO.voxel_size(shape, dims2), rtol=4 * eps, atol=0), "voxel_size_after_dimension_change", hcase)
 
         # ---- forward map: every voxel + halo, batch and single, raw and typed
         halo = 2
